@@ -25,7 +25,7 @@ from vlib import run_tlc, tlc_must_pass
 LEVEL = "exploration"
 DEADLINE = 20
 RERUN_DEADLINE = 60
-QUICK_TARGET = 9000
+QUICK_TARGET = 4000
 THOROUGH_D2_MOD = 3
 
 
@@ -50,13 +50,13 @@ def listed_index():
 
 def select(ctx, corpus, tlc_texts, idx):
     """statements to execute in this tier (a deterministic function of tier, VERIF_SEED and the frozen files)"""
-    byh = {c["h"]: c for c in corpus}
+    frozen = F.load_hashes()
     chosen = collections.OrderedDict()
     fresh = 0
     for t in tlc_texts:
         h = F.shash(t)
-        if h in byh:
-            chosen[h] = byh[h]
+        if h in frozen:
+            chosen[h] = {"h": h, "sql": t, "src": frozen[h]}
         else:  # reached by TLC but not frozen (spec or seeds changed): run it, strictly
             chosen[h] = {"h": h, "sql": t, "src": "tlc-fresh"}
             fresh += 1
@@ -83,13 +83,25 @@ def select(ctx, corpus, tlc_texts, idx):
     for c in corpus:
         if c["src"] == "seed" and c["h"] not in idx and not any(f"<REP:{n}:" in c["sql"] for n in (10000, 100000)):
             out.setdefault(c["h"], c)
-    per = collections.Counter()
-    for c in corpus:
-        cls = idx.get(c["h"])
-        if cls and per[cls] < (1 if cls.startswith("hang") else 2) and (c["src"] == "seed" or per[cls] == 0):
-            per[cls] += 1
-            out.setdefault(c["h"], c)
+    byh2 = {c["h"]: c for c in corpus}
+    for cls, e in F.load_findings()["classes"].items():
+        # the cheapest listed inputs of every class (2; 1 for hangs, each of which costs a deadline)
+        hs = sorted((h for h in e["inputs"] if h in byh2), key=lambda h: (e.get("ms", {}).get(h, 0), h))
+        for h in hs[:1 if cls.startswith("hang") else 2]:
+            out.setdefault(h, byh2[h])
     return list(out.values()), fresh
+
+
+def site_class(fnd, rec):
+    """classes whose panic is NOT a function of the input alone (findings: nondeterministic_classes) are matched
+    by panic site: file of the panic location + message prefix"""
+    if rec.get("k") != "panic":
+        return None
+    for cls, sig in fnd.get("nondeterministic_classes", {}).items():
+        loc = rec.get("loc", "")
+        if os.path.basename(loc.split(":")[0]) == sig["site"] and rec.get("msg", "").startswith(sig["msg_prefix"]):
+            return cls
+    return None
 
 
 def outcome_of(recs):
@@ -100,7 +112,7 @@ def outcome_of(recs):
 
 def run(ctx):
     fnd, idx = listed_index()
-    corpus = F.load_corpus()
+    corpus = F.load_corpus(small_only=(ctx.tier == "quick"))
     if len(corpus) < 1000:
         raise vlib.ToolError("frozen statement list corpus/fuzz/*.ndjson.gz missing or too small (run lib/fuzzgen.py)")
     texts = tlc_explore(ctx, f"SqlFuzz_{ctx.tier}.cfg", "SqlFuzz: all statements within 2 token mutations of the first seeds x engine machine; NoCrash, TypeOK, Returns")
@@ -134,9 +146,9 @@ def run(ctx):
                 nontrivial.add(s["h"])
         worst = outcome_of(recs)
         if worst["k"] in ("ok", "err"):
-            trace += [{"h": s["h"], "s": r["s"], "k": r["k"]} for r in recs]
+            trace.append({"h": s["h"], "ks": [r["k"] for r in recs]})
             continue
-        cls = idx.get(s["h"])
+        cls = idx.get(s["h"]) or site_class(fnd, worst)
         if cls and ctx.is_known(f"C29/{cls}"):
             ctx.known(f"C29/{cls}", {"sql": s["sql"][:200], "schema": worst["s"], "outcome": worst["k"],
                                      "msg": worst.get("msg", worst.get("stderr", ""))[:160]})
@@ -153,10 +165,10 @@ def run(ctx):
         if w2["k"] in ("ok", "err"):
             ctx.notes.append(f"{worst['k']} on {s['sql'][:80]!r} did not reproduce alone ({w2['k']}); not reported")
             ctx.add("unreproduced_bad_outcomes")
-            trace += [{"h": s["h"], "s": r["s"], "k": r["k"]} for r in again]
+            trace.append({"h": s["h"], "ks": [r["k"] for r in again]})
         else:
-            trace.append({"h": s["h"], "s": w2["s"], "k": w2["k"], "sql": s["sql"][:300], "cls": F.panic_class(w2),
-                          "msg": w2.get("msg", w2.get("stderr", ""))[:200]})
+            trace.append({"h": s["h"], "ks": [r["k"] for r in again], "s": w2["s"], "k": w2["k"], "sql": s["sql"][:300],
+                          "cls": F.panic_class(w2), "msg": w2.get("msg", w2.get("stderr", ""))[:200]})
     # (V) TLC judges the recorded outcomes against the engine machine
     rejected = vlib.validate_records(ctx, "SqlFuzzTrace", "SqlFuzzTrace.cfg", trace, name="outcomes", max_rejects=12, timeout=3000, heap="8g")
     byh = {s["h"]: s for s in stmts}
@@ -166,7 +178,7 @@ def run(ctx):
         if "tables" in s:
             case["tables"] = s["tables"]
         ctx.violation(case, f"{r['k']} ({r.get('cls')}: {r.get('msg', '')[:160]}) on schema {r['s']} for {F.expand(s['sql'])[:200]!r}")
-    bad_in_trace = [r for r in trace if r["k"] not in ("ok", "err")]
+    bad_in_trace = [r for r in trace if any(k not in ("ok", "err") for k in r["ks"])]
     if len(rejected) < min(len(bad_in_trace), 13):
         raise vlib.ToolError("binding lost: SqlFuzzTrace accepted a panic/abort/hang record")
     if len(suspects) > 40:
@@ -209,7 +221,7 @@ def replay(ctx, obj):
         raise vlib.ToolError("no record")
     w = outcome_of(recs)
     ctx.sample({"sql": c["sql"][:200], "outcome": w["k"]})
-    rej = vlib.validate_records(ctx, "SqlFuzzTrace", "SqlFuzzTrace.cfg", [{"h": r["h"], "s": r["s"], "k": r["k"]} for r in recs], name="replay")
+    rej = vlib.validate_records(ctx, "SqlFuzzTrace", "SqlFuzzTrace.cfg", [{"h": c["h"], "ks": [r["k"] for r in recs]}], name="replay")
     if rej:
         ctx.violation(c, f"{w['k']} ({F.panic_class(w)}: {w.get('msg', w.get('stderr', ''))[:160]})")
 
@@ -237,7 +249,7 @@ def selftest(ctx):
             vlib.log(f"selftest: probe {t!r} is absorbed by the findings list")
         if recs:
             w = outcome_of(recs)
-            trace.append({"h": s["h"], "s": w["s"], "k": w["k"]})
+            trace.append({"h": s["h"], "ks": [r["k"] for r in recs], "k": w["k"]})
     if "overflowed its stack" not in json.dumps(res.get(stmts[4]["h"], [])):
         fails += 1
         vlib.log("selftest: the stack overflow was not observed as such")
